@@ -215,6 +215,37 @@ func runC08(c *core.Ctx) {
 			}
 		}
 	}
+	// ---- a name denotes its CURRENT binding: loops and assigns that re-bind a name to one Drop after another ----
+	for i := 0; i < c.Pick(400, 8000); i++ {
+		idx++
+		if !c.Mine(idx) {
+			continue
+		}
+		r := c.Rand(idx, 81)
+		n := r.Range(2, 5)
+		items := make([]gen.V, n)
+		for j := range items {
+			items[j] = gen.Map(gen.KV{K: "name", V: gen.Str(fmt.Sprintf("item%d", r.Intn(50)))}, gen.KV{K: "price", V: gen.Int(int64(r.Range(0, 9)))})
+		}
+		scal := make([]gen.V, n)
+		for j := range scal {
+			scal[j] = gen.Int(int64(r.Range(0, 99)))
+		}
+		env := gen.Env{{K: "items", V: gen.Arr(items...)}, {K: "nums", V: gen.Arr(scal...)}, {K: "d1", V: gen.Str("first")}, {K: "d2", V: gen.Str("second")}}
+		fl := gen.For{Var: "p", Coll: gen.Var{Name: "items"}, Body: []gen.Node{gen.Out{E: gen.Prop{X: gen.Var{Name: "p"}, Name: "name"}}, gen.Text{S: ":"},
+			gen.If{Conds: []gen.Expr{gen.Cmp{Op: ">", A: gen.Prop{X: gen.Var{Name: "p"}, Name: "price"}, B: intLit(4)}}, Bodies: [][]gen.Node{{gen.Text{S: "hi"}}}, HasElse: true, Else: []gen.Node{gen.Text{S: "lo"}}}, gen.Text{S: ";"}}}
+		prog := []gen.Node{fl, gen.For{Var: "x", Coll: gen.Var{Name: "nums"}, Body: []gen.Node{gen.Out{E: gen.Var{Name: "x"}}, gen.Out{E: gen.Filt{X: gen.Var{Name: "x"}, Name: "plus", Args: []gen.Expr{intLit(1)}}}, gen.Text{S: ","}}},
+			gen.Assign{Name: "v", E: gen.Var{Name: "d1"}}, gen.Out{E: gen.Var{Name: "v"}}, gen.Assign{Name: "v", E: gen.Var{Name: "d2"}}, gen.Out{E: gen.Var{Name: "v"}}, gen.Out{E: gen.Filt{X: gen.Var{Name: "v"}, Name: "upcase"}}}
+		src := gen.DefaultStyle.Source(prog)
+		bind := gen.RealiseEnv(env, r, gen.Rep{Drops: true})
+		if !c.Begin("rebinding:" + src + " bindings=" + gen.DescribeEnv(bind)) {
+			continue
+		}
+		if modelCompare(c, e, m, prog, env, bind, gen.DefaultStyle, "rebinding", "a name re-bound within one render (loop variable, assign) did not denote its current binding") {
+			c.Obs("rebinding_cases", 1)
+			c.Distinct("rebind", src, gen.DescribeEnv(bind))
+		}
+	}
 	// ---- (2) pipelines vs assign decomposition, (4) whitespace variants ------------------------------
 	n2 := c.Pick(40000, 800000)
 	for i := 0; i < n2; i++ {
@@ -224,7 +255,7 @@ func runC08(c *core.Ctx) {
 		r := c.Rand(i, 9)
 		env := gen.StdEnv(r)
 		b := gen.CanonEnv(env)
-		f := gen.Features{Filters: true, AllFilters: true, Errors: true, Loops: true, Assign: true, Case: true, Capture: true, Tablerow: true, Cycle: true, MaxNodes: 6}
+		f := gen.Features{Filters: true, AllFilters: true, Errors: true, Loops: true, Assign: true, Case: true, Capture: true, Tablerow: true, Cycle: true, MaxNodes: 6, NestedArgs: true}
 		g := gen.NewG(r, f, env)
 		if i%2 == 0 {
 			ex := g.Value(0)
